@@ -65,7 +65,10 @@ def main():
         # behaviour-preserving refactorings written by independent authors: every check must stay silent
         for d in sorted(glob.glob(os.path.join(VERIF, "refactors/*/"))):
             if os.path.exists(os.path.join(d, "patch.diff")):
-                variants.append(("refactors/" + os.path.basename(d.rstrip("/")), os.path.join(d, "patch.diff"), 1, {"fires": [], "kind": "refactor"}))
+                rmeta = json.load(open(os.path.join(d, "meta.json"))) if os.path.exists(os.path.join(d, "meta.json")) else {}
+                # a restructuring of anchored state may leave a check at exit 2 (anchor moved: maintenance), never at exit 1
+                variants.append(("refactors/" + os.path.basename(d.rstrip("/")), os.path.join(d, "patch.diff"), 1,
+                                 {"fires": [], "kind": "refactor", "may_break": rmeta.get("checks_left_broken", [])}))
     if args.only:
         variants = [v for v in variants if args.only in v[0]]
     if args.names:
@@ -86,7 +89,7 @@ def main():
             fired = sorted(p for p, v in r["results"].items() if v["rc"] == 1)
             broken = sorted(p for p, v in r["results"].items() if v["rc"] == 2)
             if e["kind"] == "refactor":
-                ok = not fired and not broken
+                ok = not fired and set(broken) <= set(e.get("may_break", []))
             elif e["kind"] == "missed":
                 ok = True
             else:
